@@ -39,6 +39,17 @@ def inputs(chk):
         for size in ([4096, 65536] if op != "clparse" else [4096, 30000]):
             out.append((op, [], big(rng, NOISE, size)))
             out.append((op, [], (rng.choice(ss) + b"\n") * (size // (len(rng.choice(ss)) + 2) + 1) if ss else b""))
+    # long runs of ONE kind of byte in front of (and instead of) a document: 4095, 4096, 4097, 8192 and 65000 blanks, newlines,
+    # tabs, CRs, '#' lines, dashes, digits - sizes at and beyond every buffer a parser may peek into
+    for op, ss in seeds.items():
+        for n_ in (4095, 4096, 4097, 8192, 65000):
+            for unit in (b"\n", b" ", b"\t", b"\r", b"\r\n", b" \n", b"#\n", b"-", b"0", b"(", b"["):
+                if op in ("vparse", "aparse", "clparse") and n_ > 8192:
+                    continue          # (the changelog date oracle runs the quadratic extracted model over every changelog text)
+                run = (unit * (n_ // len(unit) + 1))[:n_]
+                out.append((op, [], run))
+                if ss and unit in (b"\n", b" ", b"\r\n", b" \n", b"\t"):
+                    out.append((op, [], run + ss[0]))
     # every truncation point of a few seeds, and every short string over each grammar's special characters:
     # inputs that end right after a particular character are where index expressions go wrong
     special = {"vparse": b"0a:-~+. ", "aparse": b"a-ny l", "alist": b"a- \t\n!", "dparse": b"a ,|()[]<>!${}=:", "rall": b"A: \n\t#.\r", "clparse": b"a (1);=,\n -"}
@@ -111,7 +122,7 @@ def run(chk):
     impl = chk.run_impl(icases, timeout=1800)
     # the extracted models use the standard library's quadratic List.rev / append: inputs above 6000 bytes are run
     # through the implementation only (normal return, value xor error, determinism), not compared with the model
-    small = [k for k, c in enumerate(mcases) if sum(len(a) for a in c[1] if isinstance(a, bytes)) <= 6000]
+    small = [k for k, c in enumerate(mcases) if sum(len(a) for a in c[1] if isinstance(a, bytes)) <= 3000]
     msmall = chk.run_model([mcases[k] for k in small], timeout=1800)
     model = list(impl)
     for k, r in zip(small, msmall):
@@ -134,7 +145,7 @@ def run(chk):
     chk.extra["entry_points"] = per
     # repeated and concurrent calls under the race detector
     race = lib.build_race_harness()
-    sub = [c for k, c in enumerate(icases) if k % (3 if chk.tier == "quick" else 1) == 0 and len(c[1][-1]) < 5000]
+    sub = [c for k, c in enumerate(icases) if k % (3 if chk.tier == "quick" else 1) == 0 and len(c[1][-1]) < 2500]
     want = {lib.enc_case(c): r for c, r in zip(icases, impl)}
     lines, stderr, rc = lib.run_concurrent(race, sub, timeout=3000)
     chk.extra["concurrent"] = {"cases": len(sub), "goroutines": 16, "sequential_repeats": 3, "race_detector": True, "exit": rc}
